@@ -531,6 +531,10 @@ func (w *cwalk) stmts(list []ast.Stmt, top bool) {
 				w.out = append(w.out, ".ifLastBegin")
 			case cond == "seg == nil":
 				w.out = append(w.out, ".ifNilBegin")
+			case cond == "pl.PreloadHint == nil" && strings.HasSuffix(w.fn, ".runLowLatency"):
+				// fix-F28: `if pl.PreloadHint == nil { if pl.Endlist { push(nil); <-ctx.Done(); return }; return }`
+				// — the same end-of-stream sentinel as in fillSegmentQueue; skeleton_shape pins the exact body
+				w.out = append(w.out, ".ifNoHintBegin")
 			default:
 				w.fail(s, "queue call under an unexpected condition")
 			}
